@@ -309,7 +309,7 @@ ACCESSORS = {'osmium::memory::Buffer::data': 'data', 'osmium::memory::Buffer::co
 FIELDS = {'m_data': 'data', 'm_committed': 'committed', 'm_written': 'written', 'm_capacity': 'capacity'}
 
 
-def sym_eval(fn, nid, who=lambda fn, recv: '', members=None):
+def sym_eval(fn, nid, who=lambda fn, recv: '', members=None, fb=None, env=None, depth=0):
     """linear form of a pointer/size expression over data/committed/written of buffers; `who` names the buffer a receiver
     denotes (so that m_data and data() of the same buffer unify); other leaves become their own symbols; raises Unknown"""
     n = fn.nodes.get(nid)
@@ -317,7 +317,7 @@ def sym_eval(fn, nid, who=lambda fn, recv: '', members=None):
         raise Unknown('missing node')
     k = n.get('k')
     if k in ('wrap', 'icast', 'cast'):
-        return sym_eval(fn, n['sub'], who, members)
+        return sym_eval(fn, n['sub'], who, members, fb, env, depth)
     if 'cv' in n and not n.get('float'):
         try:
             v = int(n['cv'])
@@ -325,7 +325,7 @@ def sym_eval(fn, nid, who=lambda fn, recv: '', members=None):
         except ValueError:
             pass
     if k == 'binop' and n['op'] in ('+', '-'):
-        return sym_eval(fn, n['lhs'], who, members).add(sym_eval(fn, n['rhs'], who, members), 1 if n['op'] == '+' else -1)
+        return sym_eval(fn, n['lhs'], who, members, fb, env, depth).add(sym_eval(fn, n['rhs'], who, members, fb, env, depth), 1 if n['op'] == '+' else -1)
     if k == 'call' and n.get('q') in ACCESSORS and not n.get('args'):
         return Sym.of('%s(%s)' % (ACCESSORS[n['q']], who(fn, n.get('recv'))))
     if k == 'member' and n.get('field'):
@@ -342,6 +342,22 @@ def sym_eval(fn, nid, who=lambda fn, recv: '', members=None):
                     if v['d'] == n['d'] and v.get('init') is not None and 'const' in (v.get('t') or ''):
                         init = v['init']
         if init is not None:
-            return sym_eval(fn, init, who, members)
+            return sym_eval(fn, init, who, members, fb, env, depth)
+        if env and n.get('d') in env:
+            return env[n['d']]
         return Sym.of('var:%s' % n.get('name'))
+    if k == 'call' and fb is not None and depth < 3 and n.get('q'):
+        # a helper whose value is a single expression of its parameters (and of the same buffer's accessors)
+        cands = [f for f in fb.fns(n['q']) if len(f.params) == len(n.get('args', []))]
+        if cands:
+            f = cands[0]
+            rets = [x for x in f.all_nodes() if x.get('k') == 'return' and 'sub' in x]
+            if len(rets) == 1:
+                e2 = {}
+                for p_, a_ in zip(f.params, n.get('args', [])):
+                    try:
+                        e2[p_['d']] = sym_eval(fn, a_, who, members, fb, env, depth)
+                    except Unknown:
+                        pass
+                return sym_eval(f, rets[0]['sub'], who, members, fb, e2, depth + 1)
     raise Unknown('%s node in a position expression' % k)
